@@ -136,6 +136,12 @@ class Model_cfit(Model):
         ]
         return -ll, g
 
+    def grad_hessp_batch(self, p, data, mcdata, weight, mc_weight):
+        """Hessian-vector product of this likelihood (not of the default one)."""
+        return self._grad_hessp_from_hessian(
+            p, data, mcdata, weight, mc_weight
+        )
+
     def nll_grad_hessian(
         self, data, mcdata, weight=1.0, batch=24000, bg=None, mc_weight=1.0
     ):
@@ -400,6 +406,12 @@ class ModelCfitExtended(Model):
             for i in range(len(var))
         ]
         return ret, g
+
+    def grad_hessp_batch(self, p, data, mcdata, weight, mc_weight):
+        """Hessian-vector product of this likelihood (not of the default one)."""
+        return self._grad_hessp_from_hessian(
+            p, data, mcdata, weight, mc_weight
+        )
 
     def nll_grad_hessian(
         self, data, mcdata, weight=1.0, batch=24000, bg=None, mc_weight=1.0
